@@ -162,3 +162,4 @@ Definition sem_resolve_to_ksymbol (S:sig) (p:kpat) : option ksymbol :=
   | _ => None
   end.
 Definition to_module (s:gexec) : pmodule := mkMod (x_axioms s) (x_claims s) (x_proofs s).
+Definition is_rewriting (r:krule) : bool := match r_kind r with RRewrite => true | REquational => false end.
